@@ -632,10 +632,24 @@ def _check_patch_addends(sess):
         if cap is None:
             continue
         pdesc = sess.desc["ops"][c["op"]].get("patch") or {}
-        named = {l["t"] for l in (pdesc.get("lines") or []) if l.get("t") and not l.get("ttemp") and l.get("v")}
+        plines = pdesc.get("lines") or []
+        sec = cap["sections"][cap["text"]]
+        # ... and an operand written as ':lo12:sym+N' is an expression on sym
+        # with addend N that carries the LO12 attribute
+        for l in plines:
+            if l.get("v") == "addlo" and not l.get("ttemp"):
+                want_a = l.get("a") or 0
+                if not any(ed[0] == "const" and ed[1] == l["t"] and ed[3] == want_a and "LO12" in (ed[4] or ()) for _, (size, ed) in sec["sx"].items()):
+                    got = sorted((off, ed[3], list(ed[4] or ())) for off, (size, ed) in sec["sx"].items() if ed[0] == "const" and ed[1] == l["t"])
+                    raise core.Violation(
+                        "C04",
+                        "expr-attrs/addend",
+                        {"what": "operand written as :lo12:sym+N", "symbol": l["t"], "addend": want_a, "expressions_on_symbol": got, "op": c["op"]},
+                        {"where": "patch", "kind": "lo12-operand"},
+                    )
+        named = {l["t"] for l in plines if l.get("t") and not l.get("ttemp") and l.get("v") and not l.get("a")} - {l["t"] for l in plines if l.get("a")}
         if not named:
             continue
-        sec = cap["sections"][cap["text"]]
         for off, (size, ed) in sorted(sec["sx"].items()):
             if ed[0] == "const" and ed[1] in named and ed[3] != 0:
                 raise core.Violation(
